@@ -492,13 +492,16 @@ func (e *kvElection) attemptPriorityTakeover(payloadBytes []byte) error {
 	return nil
 }
 
-func (e *kvElection) becomeFollower() {
+// becomeFollower switches the instance to follower. It reports whether the
+// instance was leader before the call, so that exactly one of several
+// concurrent detectors of the same loss runs the demotion callback.
+func (e *kvElection) becomeFollower() bool {
 	e.mu.Lock()
 	defer e.mu.Unlock()
 
 	// A stopped election stays STOPPED and does not start a watcher.
 	if e.ctx == nil || e.ctx.Err() != nil {
-		return
+		return false
 	}
 
 	fromState := StateInit
@@ -538,6 +541,8 @@ func (e *kvElection) becomeFollower() {
 			e.watchLoop(e.ctx)
 		}()
 	}
+
+	return wasLeader
 }
 
 func (e *kvElection) Stop() error {
